@@ -110,6 +110,18 @@ def _mutate_partition(rng, frames, lab):
             if lab[i] == t and frames[i] >= cut:
                 lab[i] = nxt
         nxt += 1
+    # swaps: two tracks present at k-1 and k exchange their labels from frame k on (old links cross)
+    for _ in range(rng.choice([0, 0, 0, 1, 1, 2])):
+        ext = {}
+        for i, t in enumerate(lab):
+            lo, hi = ext.get(t, (frames[i], frames[i]))
+            ext[t] = (min(lo, frames[i]), max(hi, frames[i]))
+        cands = [(a, b, k) for a in ext for b in ext if a < b
+                 for k in range(max(ext[a][0], ext[b][0]) + 1, min(ext[a][1], ext[b][1]) + 1)]
+        if not cands:
+            break
+        a, b, k = rng.choice(sorted(cands))
+        lab = [(b if t == a else a if t == b else t) if frames[i] >= k else t for i, t in enumerate(lab)]
     # merges: a track ending at k with a track starting at k+1
     for _ in range(rng.choice([0, 0, 1, 2, 3])):
         ext = {}
@@ -146,7 +158,7 @@ def _rename(rng, lab):
 
 
 def gen_table(rng, thorough=False):
-    nfr = rng.randint(3, 10)
+    nfr = rng.choice([3, 4, 5, 6, 6, 7, 7, 8, 8, 9, 10])
     npart = rng.randint(1, 6)
     f0 = rng.choice([0, 0, 0, 1, 5, -2])
     rows = []      # frame, x8, y8
@@ -207,11 +219,13 @@ def gen_table(rng, thorough=False):
     lab = _mutate_partition(rng, frames, lab)
     lab, scheme = _rename(rng, lab)
     lo, hi = min(frames), max(frames)
-    kind = rng.choice(["inner", "inner", "inner", "single", "touch_lo", "touch_hi", "exceed_lo", "exceed_hi",
-                       "cover", "outside"] if rng.random() < 0.5 else ["inner", "single", "touch_lo", "touch_hi"])
+    kind = rng.choice(["inner"] * 10 + ["single"] * 2 + ["touch_lo"] * 3 + ["touch_hi"] * 3 +
+                      ["exceed_lo", "exceed_hi", "cover", "outside"])
     if kind == "inner" and hi - lo >= 2:
         a = rng.randint(lo + 1, hi - 1)
         b = rng.randint(a + 1, hi)
+        if b == a + 1 and b < hi and rng.random() < 0.7:
+            b += 1
     elif kind == "single":
         a = rng.randint(lo, hi)
         b = a + 1
@@ -554,7 +568,7 @@ def run_case(ctx, inp):
         res.violation("property-violation",
                       "link_partial raised %s: %s (range %s, frames %d..%d, empty frames in range %s)"
                       % (type(exc).__name__, str(exc)[:120], (a, b), lo, hi, empty_in_range),
-                      impl="raise:" + type(exc).__name__, signature=sig)
+                      impl="raise:" + type(exc).__name__, broken=sig["what"], signature=sig)
         # model of the repaired code on the same input (labels of an independent link as in-range labels)
         return res
 
@@ -624,7 +638,7 @@ def run_case(ctx, inp):
             continue
         seen_sig.add(key)
         res.violation("property-violation", "%s: %s; range %s search_range %s" % (check, msg, (a, b), sr),
-                      impl=dict(final=final), signature=sig)
+                      impl=dict(final=final), broken=sig["what"], signature=sig)
 
     # ---- model ------------------------------------------------------------------------------------
     if cap is not None:
